@@ -10,6 +10,7 @@ pub mod c09;
 pub mod c10;
 pub mod c12;
 pub mod c13;
+pub mod c14;
 pub mod c15;
 pub mod c16;
 pub mod c17;
@@ -30,6 +31,7 @@ pub fn lookup(id: &str) -> Option<&'static dyn Prop> {
         "C10" => &c10::C10,
         "C12" => &c12::C12,
         "C13" => &c13::C13,
+        "C14" => &c14::C14,
         "C15" => &c15::C15,
         "C16" => &c16::C16,
         "C17" => &c17::C17,
